@@ -77,6 +77,20 @@ CLAIMED['C13'] = ('other',
     'effect / ownership / escape analysis over the ASTs with a memo-protocol typestate per module-level container',
     'DESIGN.md section C13')
 
+CLAIMED['C01'] = ('other',
+    'Abstract interpretation (STRABS: strings as cells of character classes over a partition of all 1,114,112 code points, length '
+    'intervals, path-sensitive refinement by the gates the code applies) of all 234 validate() functions from number = any object and '
+    'every option value: each partial operation reached (int(), .index(), subscripts, unpacking, division, date construction, '
+    'attribute access on None, foreign raise) is proven safe under the dominating facts or absorbed by a handler; every return path '
+    'yields a non-empty str; registry keys demanded are decided on the registry data; the summary of util.clean() is re-derived on '
+    'every run; is_valid() must have the forwarding try/except shape. This covers every input at once, including exotic Unicode, '
+    'very long strings and non-strings, which the doctests never try.',
+    'Trusted: the hand-written models of ~25 builtins/str methods in sa/strabs; CPython ast, re._parser, unicodedata; the 4300-digit int '
+    'conversion limit. Constructs the interpreter cannot follow are listed as undecided in sa/scope.py (24 today) and in the evidence; '
+    'known findings: generic checksum modules return non-strings unchanged, gs1_128.validate(\'\') returns \'\'.',
+    'abstract interpretation of the string dialect (dataflow of character classes and lengths) + shape rule for is_valid()',
+    'DESIGN.md sections 2.2 and C01')
+
 NOT_APPLICABLE = {
 }
 
